@@ -50,13 +50,17 @@ def with_options(draw, base):
 
 
 def strategy(tier):
-    return with_options(gen_hier.hier_case(tier, {'lattice': False,
-                                                 'surface_tr': True}))
+    from hypothesis import strategies as st
+    hier = gen_hier.hier_case(tier, {'lattice': False, 'surface_tr': True})
+    # one universe placed in several containers under related (proper)
+    # transformations: every copy is located through its own frame
+    return with_options(st.one_of(hier, hier, hier, hier,
+                                  gen_hier.twin_fill_case(tier)))
 
 
 def budget(tier):
     if tier == 'quick':
-        return {'max_examples': 320, 'shards': 8, 'time_budget': 110}
+        return {'max_examples': 800, 'shards': 16, 'time_budget': 110}
     return {'max_examples': 32000, 'shards': 16, 'time_budget': 1800}
 
 
